@@ -416,6 +416,9 @@ def model_task(task, ybin, root, prop):
                 add_unset_steps(pkg, protos0[0], pr_)
                 # instants and times of day on both sides of every boundary the conversions know: before / after 1970, whole
                 # seconds, whole microseconds (what the standard library's types can hold), odd nanoseconds
+                # a fixed-length vector of fixed-size numbers whose encoding is larger than the staging buffers
+                bt_, bn_ = pr_.choice([("uint8", 70000), ("float32", 17000), ("float64", 8200), ("int8", 65537), ("bool", 66000)])
+                protos0[0].steps.append(("steerbigfixed", M.Vec(M.Prim(bt_), bn_), pr_.chance(0.3)))
                 protos0[0].steps.append(("steerinstants", M.Prim("datetime"), True))
                 protos0[0].steps.append(("steerclock", M.Prim("time"), True))
             # arrays of the widest integers, filled (below) with single high bits: the values at which a varint gets one byte longer
